@@ -15,6 +15,8 @@
 //	              -mode schemas -schemalocs writes the "where the schema files live" projects c17s* (schemaloc.go)
 //	              -mode schemas -filekinds writes the "what a schema file contains" projects c17f* (filekinds.go)
 //	              -mode schemas -dirargs writes the "how directive arguments are given" projects c17a* (dirargs.go)
+//	              -mode schemas -regen writes the "state of the project directory when generation starts" projects c17g*
+//	                (regen.go): a first step and, in step2/, the files of a second generation in the same directory
 //	-mode decls   go/parser over the files generated in -dir: declared identifiers by scope, and the schema
 //	              summary line for the Lean model's `emitted`
 //
@@ -59,6 +61,8 @@ func main() {
 	fileCorpus := flag.String("filecorpus", "", "directed file-contents corpus (schemas, with -filekinds)")
 	withDirArgs := flag.Bool("dirargs", false, "schemas: also write the directive-argument projects (c17a*)")
 	dirArgCorpus := flag.String("dirargcorpus", "", "directed directive-argument corpus (schemas, with -dirargs)")
+	withRegen := flag.Bool("regen", false, "schemas: also write the regeneration projects (c17g*: a second step in step2/)")
+	regenCorpus := flag.String("regencorpus", "", "directed regeneration corpus (schemas, with -regen)")
 	flag.Parse()
 	defer out.Flush()
 	switch *mode {
@@ -83,6 +87,9 @@ func main() {
 		}
 		if *withDirArgs {
 			writeDirArgs(*outDir, *seed, *tier, *dirArgCorpus)
+		}
+		if *withRegen {
+			writeRegen(*outDir, *seed, *tier, *regenCorpus)
 		}
 		if *withFileKinds {
 			writeFileKinds(*outDir, *seed, *tier, *fileCorpus)
